@@ -79,20 +79,25 @@ Grid == CASE Focus = "notify" -> GridNotify
           [] Focus = "huge" -> GridHuge
           [] OTHER -> GridNotify \cup GridXfr(XfrCfgsMain) \cup GridHuge
 
-\* the limit is never negative, and the late-error band of the channel is avoided
-ASSUME \A x \in Grid : Limit(x[2]) >= 0
-ASSUME \A x \in Grid : LET n == Len(IxfrRecs(DiffsFrom(x[1], SerialTag(x[2])))) IN n <= 50 \/ n >= ChanCap + 50
-
-\* no case of the grid depends on whether a message of exactly `limit` octets is allowed
+\* Sanity of the grid (checked once, in the idle state of the main run): the
+\* limit is never negative, the late-error band of the channel is avoided,
+\* and no case depends on whether a message of exactly `limit` octets is allowed
 Stream(c, r) == IF r.qt = "IXFR" /\ DiffsFrom(c, SerialTag(r)) # <<>> THEN IxfrRecs(DiffsFrom(c, SerialTag(r))) ELSE AxfrRecs(c)
-ASSUME \A x \in Grid : XfrRelevant(x[2]) =>
-          LET c == x[1]
-              r == x[2]
-              recs == Stream(c, r)
-              szs == [j \in 1 .. Len(recs) |-> RecSize(c, recs[j])]
-          IN \A rr \in {0, 1} : \A mf \in BOOLEAN : ~PackAll(szs, Params(Fixed, Limit(r), rr, mf)).amb
+GridSane ==
+  phase = "idle" =>
+    \A x \in Grid :
+      LET c == x[1]
+          r == x[2]
+          n == Len(IxfrRecs(DiffsFrom(c, SerialTag(r))))
+          recs == Stream(c, r)
+          szs == [j \in 1 .. Len(recs) |-> RecSize(c, recs[j])]
+      IN /\ Limit(r) >= 0
+         /\ (n <= 50 \/ n >= ChanCap + 50)
+         /\ XfrRelevant(r) =>
+               \A rr \in {0, 1} : \A mf \in BOOLEAN : ~PackAll(szs, Params(Fixed, Limit(r), rr, mf)).amb
 
-DoRecv == \E x \in Grid : Recv(x[1], x[2])
+DoRecv == /\ phase = "idle"
+          /\ \E x \in Grid : Recv(x[1], x[2])
 MCNext == DoRecv \/ NotifyPre \/ NotifyReply \/ XfrPre \/ XfrAcl \/ XfrRespond \/ Next \/ Done
 MCSpec == Init /\ [][MCNext]_vars
 
